@@ -57,7 +57,12 @@ def check(ctx, rule, type_names):
         if now is None:
             continue          # the field was renamed or removed: nothing to hold its writers to (other rules anchor on roles)
         n += 1
-        extra = sorted(w for w in now if w not in allowed)
+        # a writer that moved to another module (same name, same impl type) is the same writer
+        def _tk(path_):
+            segs = path_.split("::")
+            return "::".join(segs[-2:]) if len(segs) >= 2 and segs[-2][:1].isupper() else segs[-1]
+        gone_tk = {_tk(w) for w in allowed if w not in present}
+        extra = sorted(w for w in now if w not in allowed and _tk(w) not in gone_tk)
         # renamed writers: a pinned writer of the same impl / module has disappeared from the tree
         gone = [w for w in sorted(allowed) if w not in present]
         unexpected = []
